@@ -46,6 +46,31 @@ def _f(tag, i, n):
     return (base + np.arange(n, dtype="<f4") * np.float32(0.5)).astype("<f4")
 
 
+def _gaps(tag, i, a):
+    """some blocks carry missing frames or samples that are not ordinary numbers: the container places
+    the following block by the size such a block reports.  (Frame 0 column 0 stays: it identifies the
+    block.)  a: (frames,) or (frames, components)"""
+    mode = (tag + i) % 7
+    if len(a) < 3 or mode < 3:
+        return a
+    a = a.copy()
+    if mode == 3:
+        a[1] = np.nan                       # interior gap: two runs
+    elif mode == 4:
+        a[len(a) - 1] = np.nan              # trailing gap
+    elif mode == 5:
+        if a.ndim == 1:
+            a[1] = np.inf
+        else:
+            a[1, 0] = -np.inf               # an infinite first component
+    else:
+        if a.ndim == 1:
+            a[2] = -np.inf
+        else:
+            a[1, a.shape[1] - 1] = np.nan   # a present frame with one component missing
+    return a
+
+
 def _vp(tag, i):
     return CameraViewPort(np.array([tag % 1000, i], "<i4"), np.array([640 + i, 480], "<i4"))
 
@@ -56,21 +81,33 @@ def make_block(rt, k, tag, cd=None, md=None):
         b = Data3D(100, NF, _f(tag, 90, 3), _f(tag, 91, 9).reshape(3, 3), _f(tag, 92, 3),
                    format=Data3dBlockFormat.byTrack if tag % 2 else Data3dBlockFormat.byTrackWithoutLinks)
         for i in range(k):
-            b.add_track(MarkerTrack(lab(i), _f(tag, i, NF * 3).reshape(NF, 3)))
+            b.add_track(MarkerTrack(lab(i), _gaps(tag, i, _f(tag, i, NF * 3).reshape(NF, 3))))
+        if tag % 4 in (0, 3):
+            # links: stored in the format with links, carried along but not stored in the other one
+            from basictdf.tdfData3D import LinkType
+            b.links = np.array([(0, tag % 50), (1, 2)], dtype=LinkType.btype)
     elif rt == 11:
         b = EMG(1000, NF + 49, 0.0)
         for i in range(k):
-            b.addSignal(EMGTrack(lab(i), _f(tag, i, NF + 49)))
+            b.addSignal(EMGTrack(lab(i), _gaps(tag, i, _f(tag, i, NF + 49))))
     elif rt == 12:
         b = ForceTorque3D(100, NF, _f(tag, 90, 3), _f(tag, 91, 9).reshape(3, 3), _f(tag, 92, 3))
         for i in range(k):
-            b.add_track(ForceTorqueTrack(lab(i), _f(tag, i, NF * 3).reshape(NF, 3),
+            b.add_track(ForceTorqueTrack(lab(i), _gaps(tag, i, _f(tag, i, NF * 3).reshape(NF, 3)),
                                          _f(tag, i + 20, NF * 3).reshape(NF, 3), _f(tag, i + 40, NF * 3).reshape(NF, 3)))
     elif rt == 9:
         b = ForcePlatformsDataBlock(np.float32(tag % 977), 100, NF)
-        for i in range(k):
-            b.add_platform(ForcePlatformData(_f(tag, i, NF * 2).reshape(NF, 2), _f(tag, i + 20, NF * 3).reshape(NF, 3),
-                                             _f(tag, i + 40, NF)))
+        plats = [ForcePlatformData(_gaps(tag, i, _f(tag, i, NF * 2).reshape(NF, 2)),
+                                   _f(tag, i + 20, NF * 3).reshape(NF, 3), _f(tag, i + 40, NF)) for i in range(k)]
+        if tag % 3 == 1 and k >= 2:
+            # the first platform on an explicit channel, the others through the bulk setter (which appends)
+            b.add_platform(plats[0], 7 + tag % 5)
+            b.platforms = plats[1:]
+        elif tag % 3 == 2:
+            b.platforms = iter(plats)
+        else:
+            for pl in plats:
+                b.add_platform(pl)
     elif rt == 7:
         b = ForcePlatformsCalibrationDataBlock()
         for i in range(k):
